@@ -331,20 +331,36 @@ def run(db: DB, rep: Report) -> None:
                   (api, owner, [db.loc(x["node"]) for x in ss]))
     tn = db.func("teaal.trans.hifiber.HiFiber.__trans_nodes")
     for meth, lit in (("start", "Start"), ("end", "End")):
-        cs = [n for n in walk_no_nested(tn.node) if isinstance(n, ast.Call) and isinstance(n.func, ast.Attribute)
-              and n.func.attr == meth and norm(n.func.value) == "self.collector"]
+        # anywhere in the translator class (the dispatch may be split over helper methods or a table)
+        cs = []
+        for g_ in tn.cls.methods.values():
+            for n in ast.walk(g_.node):
+                if isinstance(n, ast.Call) and isinstance(n.func, ast.Attribute) and n.func.attr == meth and \
+                        norm(n.func.value) == "self.collector":
+                    cs.append((n, g_))
         ok = len(cs) == 1
         wrong_arm = False
         if ok:
-            g = [norm(a) for t, pol in paths.guards(cs[0], stop=tn.node) for a, p in paths.conjuncts(t, pol) if p]
-            ok = any(x.endswith(".get_type() == '%s'" % lit) for x in g) and \
-                any(x.startswith("isinstance(") and x.endswith(", MetricsNode)") for x in g)
-            wrong_arm = any(".get_type() == '" in x and not x.endswith("== '%s'" % lit) for x in g) or \
-                any(x.startswith("isinstance(") and not x.endswith(", MetricsNode)") for x in g)
-        rep.check("T4", ok, db.loc(cs[0]) if cs else db.loc(tn.node), tn.short, "arm:" + meth,
+            c0, g0 = cs[0]
+            sel: List[str] = []          # literals that select this call
+            for t, pol in paths.guards(c0, stop=g0.node):
+                for a, p in paths.conjuncts(t, pol):
+                    txt = paths.inlined_text(a, g0.node)
+                    m_ = re.search(r"\.get_type\(\) == '(\w+)'$", txt)
+                    if m_ and p:
+                        sel.append(m_.group(1))
+            for p_ in paths.parents(c0, g0.node):
+                # value of a {"Start": ..., "End": ...} dispatch table (possibly inside a lambda)
+                if isinstance(p_, ast.Dict):
+                    for k_, v_ in zip(p_.keys, p_.values):
+                        if isinstance(k_, ast.Constant) and any(x is c0 for x in ast.walk(v_)):
+                            sel.append(k_.value)
+            ok = sel == [lit]
+            wrong_arm = bool(sel) and sel != [lit]
+        rep.check("T4", ok, db.loc(cs[0][0]) if cs else db.loc(tn.node), tn.short, "arm:" + meth,
                   "collector.%s() is called only from the MetricsNode('%s') arm" % (meth, lit),
                   "collector.%s() is not called from exactly the MetricsNode('%s') arm" % (meth, lit),
-              decided=wrong_arm or len(cs) > 1)
+                  decided=wrong_arm or len(cs) > 1)
     bl = db.func("teaal.ir.flow_graph.FlowGraph.__build_loop_nest")
     gs = {}
     for lit in ("Start", "End"):
@@ -446,7 +462,8 @@ def run(db: DB, rep: Report) -> None:
     a1 = [paths.inlined_text(a_, Mx.methods["get_collected_tensor_info"].node) for a_ in n1_atoms]
     a2 = [paths.inlined_text(a_, gt.node) for a_ in n2_atoms]
     c1, c2 = classify(a1), classify(a2)
-    if few_prefix_tests and c1 == c2:
+    want = {"payload", "not-iter", "not-get_payload"}
+    if few_prefix_tests and c1 == c2 and c1 != want:
         raise AnalysisError("fewer than 2 get_payload prefix tests found")
     want = {"payload", "not-iter", "not-get_payload"}
     rep.check("T6", c1 == want, db.loc(n1), "Metrics.get_collected_tensor_info", "filter-pred:registration",
@@ -467,7 +484,7 @@ def run(db: DB, rep: Report) -> None:
               "the order of the (coord, payload, elem) path tuple changed; 'i == 1' no longer selects payload")
 
     # ---- T7 --------------------------------------------------------------------
-    rep.rule("T7", "one rule for choosing the leader", 4)
+    rep.rule("T7", "one rule for choosing the leader", 2)
     leader_loops = []
     for f in (db.func("teaal.trans.equation.Equation.__make_input_iter_expr"), bft):
         for n in walk_no_nested(f.node):
